@@ -64,8 +64,10 @@ def variants(text, rng):
                       'a%d', 'ns with spaces %d', '%%41%%7B%d%%', 'http://www.collada.org/2008/03/COLLADASchem%d']) % k
     # (braces are not URI characters and pycollada's tag splitting relies on that: '{x' or 'x}y' as a namespace
     # name is outside the property's "any namespace URI")
-    if rng.random() < 0.05:
-        rnd = rng.choice(['a', '%', 'x y'])
+    if rng.random() < 0.25:
+        # chosen against the tag text '{uri}COLLADA': ending in letters of COLLADA, containing it
+        rnd = rng.choice(['a', '%', 'x y', 'http://example.org/schemas/COLLADA', 'urn:example:scene-3D', 'urn:x:%dA' % k,
+                          'http://example.org/COLLADA/%d/LOD' % k, 'ACDLO', 'COLLADA', 'urn:%d:COLLADACOLLADA' % k, 'xCOLLADA%dD' % k])
     others = [u for u in (NS141, NS15) if u != ns] + [rnd]
     if ns == NS141:
         others = [NS15, rnd]
@@ -174,7 +176,7 @@ def run(ctx):
     for i, (doc, (ns, vs, r0, rs)) in enumerate(zip(docs, per)):
         if len(terms) >= ncoq:
             break
-        if doc.get('ignore') or doc.get('file') or 'snap' not in r0:
+        if doc.get('ignore') or doc.get('file') or 'snap' not in r0 or (doc.get('desc') or {}).get('repair_paths'):
             continue
         k = len(terms) % len(vs)
         if 'snap' not in rs[k]:
